@@ -101,8 +101,14 @@ class WarmGen:
 
     def __init__(self, delta):
         self.delta = delta
+        self.calls = 0
 
     def normal(self, loc=0.0, scale=1.0, size=None):
+        self.calls += 1
+        if self.calls > 4000:
+            from mc.explore import Runaway
+
+            raise Runaway("more than 4000 draws during one scripted warm-up step")
         z = self.delta if size is None else np.full(size, float(self.delta))
         return loc + scale * z
 
